@@ -65,19 +65,20 @@ Definition resolve (ns : list string) (k : string) : option string :=
   if existsb (String.eqb k) ns then Some k
   else find (fun m => String.eqb (fold_case m) (fold_case k)) ns.
 
-(* the value the field named n ends up with: the LAST document entry whose key resolves to n *)
-Fixpoint lookup_f (ns : list string) (n : string) (kv : list (string * json)) : option json :=
+(* the document entries a decoder applies to the field named n, in document order: every entry
+   whose key resolves to n.  encoding/json decodes EACH of them, in order, into the same
+   target (so duplicates are neither rejected nor simply "last wins": see Model.dec_occs). *)
+Fixpoint entries_f (ns : list string) (n : string) (kv : list (string * json)) : list json :=
   match kv with
-  | [] => None
+  | [] => []
   | (k, j) :: r =>
-      match lookup_f ns n r with
-      | Some x => Some x
-      | None => match resolve ns k with
-                | Some m => if String.eqb m n then Some j else None
-                | None => None
-                end
+      match resolve ns k with
+      | Some m => if String.eqb m n then j :: entries_f ns n r else entries_f ns n r
+      | None => entries_f ns n r
       end
   end.
+
+Definition is_null (j : json) : bool := match j with JNull => true | _ => false end.
 
 (* normal form of a decimal *)
 Definition num_normb (m k : Z) : bool :=
